@@ -15,6 +15,23 @@
 //!
 //! Time: cron is ticked at the epoch being left and at the last epoch of every deadline of every
 //! miner in between (the miner's deadline cron only fires there); intermediate epochs are skipped.
+//!
+//! Conventions:
+//! * sequence `K` (0-based) is generated from `seq_rng(seed, K)`; `ba_harness c02actor --seed S
+//!   --only-seq K` re-runs exactly that sequence (`BA_SHOW_STEPS=1` prints its step log to stderr).
+//!   Replays: `$BA_REPLAY_DIR/C02-actor-S-K.ops` (claim / totals kinds) and `C04-actor-S-K.ops`
+//!   (bookkeeping kinds): header + one line per step; the sequence itself is re-generated from the seed.
+//! * sequences with `K % 12 == 5` are "big": five 64 GiB miners onboard 160..163 sectors each
+//!   (10 TiB = the consensus minimum) so that claims cross the minimum and the number of miners at or
+//!   above it crosses the 4-miner threshold of the total-power rule.  All others: 1–2 miners, ≤ 8 sectors.
+//! * known finding F1 (creation deposit locked in the miner but missing from the power actor's
+//!   total_pledge_collateral): in a network this small the first penalty/vesting paid out of those
+//!   locked funds would make the total negative, abort the miner's deadline cron and make the power
+//!   actor delete the claim (a C02-relevant consequence).  The harness therefore adds the deposit to
+//!   the total right after `CreateMiner` (what a repair of F1 would do) — except in sequences with
+//!   `K % 8 == 7` (or with `BA_NO_F1_COMP=1`), where the consequence is detected from the cron trace,
+//!   recorded in `notes`/`branch_hist` with a witness file and NOT counted as a violation
+//!   (`BA_F1_AS_VIOLATION=1` turns it into one).  Pledge totals are not checked here.
 use super::{RunCfg, hash_lines, seq_rng};
 use crate::report::{Report, Violation, write_replay};
 use crate::rng::Rng;
@@ -148,6 +165,7 @@ struct Ctx<'a> {
     ticks: u64,
     oracle_runs: u64,
     scans: u64,
+    last_above: i64,
     f1_as_violation: bool,
 }
 
@@ -412,7 +430,11 @@ impl<'a> Ctx<'a> {
             claims.push(claim);
             snaps.push(s);
         }
-        check_network(w, &self.miners, &mut probs);
+        let n_above = check_network(w, &self.miners, &mut probs);
+        if n_above != self.last_above {
+            self.rep.branch(&format!("miners-at-or-above-minimum:{}->{}", self.last_above, n_above));
+            self.last_above = n_above;
+        }
         // history for the non-triviality rule
         for (mi, c) in claims.iter().enumerate() {
             let m = &mut self.miners[mi];
@@ -795,7 +817,7 @@ fn scan_miner(w: &World, policy: &Policy, m: &mut Miner, probs: &mut Vec<Prob>) 
 }
 
 /// C02, network half: totals vs Σ claims under the consensus-minimum rule.
-fn check_network(w: &World, miners: &[Miner], probs: &mut Vec<Prob>) {
+fn check_network(w: &World, miners: &[Miner], probs: &mut Vec<Prob>) -> i64 {
     let store = w.vm.store.as_ref();
     let pst: PowerState = vm_api::util::get_state(&w.vm, &STORAGE_POWER_ACTOR_ADDR).unwrap();
     let mut all = pw_zero();
@@ -871,6 +893,7 @@ fn check_network(w: &World, miners: &[Miner], probs: &mut Vec<Prob>) {
             detail: format!("current_total_power()=({}, {}) but the minimum rule gives ({}, {})", cur.0, cur.1, expect.0, expect.1),
         });
     }
+    n_above
 }
 
 fn pick_subset(r: &mut Rng, xs: &[u64], max: usize) -> Vec<u64> {
@@ -993,6 +1016,7 @@ fn run_sequence(cfg: &RunCfg, rep: &mut Report, seq: u64, max_steps: u64) -> (bo
         ticks: 0,
         oracle_runs: 0,
         scans: 0,
+        last_above: 0,
         f1_as_violation: std::env::var("BA_F1_AS_VIOLATION").map(|v| v == "1").unwrap_or(false),
     };
     // "big" sequences: five 64 GiB miners that each onboard a little over the consensus minimum
